@@ -99,6 +99,10 @@ pub struct Case {
     pub hyper: Hyper,
     pub ops: Vec<Op>,
     pub faults: Vec<FaultEv>,
+    /// added to every feature (Gaussian NB / k-means): data far from the origin, e.g.
+    /// timestamps or ids, where a numerically careless pooled update cancels catastrophically
+    #[serde(default)]
+    pub offset: f64,
     /// environment of process epoch e is envs[e % len]
     pub envs: Vec<Env>,
     pub storage_seed: u64,
@@ -159,7 +163,7 @@ pub fn make_data(c: &Case) -> Data {
                         r.normal() + if j % 2 == 0 { cls as f64 } else { 0.0 }
                     }
                 }
-                _ => 3.0 * ((cls * (j + 1)) % 5) as f64 + r.normal() * (0.5 + (j % 3) as f64 * 0.5),
+                _ => c.offset + 3.0 * ((cls * (j + 1)) % 5) as f64 + r.normal() * (0.5 + (j % 3) as f64 * 0.5),
             };
         }
     }
@@ -639,10 +643,12 @@ impl Sut for NbSut {
                 for j in 0..c.d {
                     let mean = idx.iter().map(|&r| d.x[[r, j]]).sum::<f64>() / cnt as f64;
                     let var = idx.iter().map(|&r| (d.x[[r, j]] - mean).powi(2)).sum::<f64>() / cnt as f64;
-                    if !close(theta[j], mean, 1e-9, 1e-9 * scale) {
+                    if !close(theta[j], mean, 1e-12, 1e-9 * (1.0 + var.sqrt()) + 64.0 * f64::EPSILON * scale) {
                         return Some(format!("class {name} feature {j}: mean {} but the mean of the delivered samples is {mean}", theta[j]));
                     }
-                    let tol = 2.0 * (eps_hi - eps_lo) + 1e-9 * scale * scale + 1e-9 * var;
+                    // floating-point error of a numerically stable pooled update: relative to the
+                    // variance, plus the rounding of the means (magnitude `scale`) entering (mu_a - mu_b)^2
+                    let tol = 2.0 * (eps_hi - eps_lo) + 1e-9 * var + 256.0 * f64::EPSILON * scale * (1.0 + var.sqrt()) + 1e-12;
                     if sigma[j] < var + eps_lo - tol || sigma[j] > var + eps_hi + tol || !sigma[j].is_finite() {
                         return Some(format!(
                             "class {name} feature {j}: smoothed variance {} outside [{}, {}] (variance of the delivered samples {var} + smoothing epsilon)",
@@ -1169,12 +1175,15 @@ fn fault_env(r: &mut Prng, pool: bool) -> Env {
 pub fn gen_case(r: &mut Prng, learner: Learner, big: bool) -> Case {
     let k = r.usize_in(2, if learner == Learner::KMeans { 4 } else { 6 });
     let d = r.usize_in(1, 8);
+    // every eighth k-means history has batches of several hundred rows (parallel loops split)
+    let huge = learner == Learner::KMeans && r.chance(0.125);
     let n = match learner {
+        Learner::KMeans if huge => r.usize_in(1200, 3200),
         Learner::KMeans => r.usize_in(4 * k.max(3), if big { 400 } else { 120 }),
         _ => r.usize_in(6.max(k), if big { 300 } else { 80 }),
     };
     let min_size = if learner == Learner::KMeans { k } else { 1 };
-    let mut cuts = random_cuts(r, n, if big { 12 } else { 8 }, min_size);
+    let mut cuts = random_cuts(r, n, if huge { 4 } else if big { 12 } else { 8 }, min_size);
     if learner == Learner::KMeans {
         // the first batch initialises the model: it must hold at least k rows
         cuts[0] = cuts[0].max(k);
@@ -1269,6 +1278,7 @@ pub fn gen_case(r: &mut Prng, learner: Learner, big: bool) -> Case {
         faults,
         envs,
         storage_seed: r.next_u64() >> 16,
+        offset: if matches!(learner, Learner::Gnb | Learner::KMeans) && r.chance(0.25) { *r.pick(&[1e4, 1e6, 1e8]) } else { 0.0 },
     }
 }
 
